@@ -88,8 +88,11 @@ def run_block(ctx, sh, mode, configs, oracle, flags=(True, False), per_dataset=N
             ref = Ref(ds, universe, s)
             for cfg in configs:
                 for one in flags:
+                    def on_start(prefix, _cfg=cfg, _one=one, _s=s):
+                        harness.mark({'cfg': {'mode': mode}, 'dataset': ds, 'labels': lname, 'n': n, 'scheme': _s,
+                                      'config': _cfg.name, 'one': _one, 'schedule': prefix})
                     for cs, status, value, dataset, scheme in algos.explore_config(
-                            cfg, lambda: (mk_dataset(ds, labels), mk_scheme(s)), one):
+                            cfg, lambda: (mk_dataset(ds, labels), mk_scheme(s)), one, on_start=on_start):
                         ctx.evals += 1
                         info = Info()
                         info.ds, info.lname, info.n, info.universe, info.labels = ds, lname, n, universe, labels
